@@ -66,6 +66,8 @@ def world():
              zmax=lambda a, b: z3.If(zint(a) >= zint(b), zint(a), zint(b)),
              zmin=lambda a, b: z3.If(zint(a) <= zint(b), zint(a), zint(b)))
     w['__bases__'] = {}
+    w['td_us'] = lambda td: zint(td.us) if isinstance(td, TD) else z3.IntVal(-1)
+    w['tz_h'], w['tz_m'] = z3.Int('tz_h'), z3.Int('tz_m')
     w['delta'], w['delta_norm'] = TD.decomposed('delta')
     return w
 
@@ -186,10 +188,58 @@ def lemma_monotone_us(w):
     return [ts >= 1, u <= u2], floordiv(ts * u, z3.IntVal(MILLION)) <= floordiv(ts * u2, z3.IntVal(MILLION))
 
 
+# ----------------------------------------------------------------------------- UTC offsets: FixedOffsetTimeZone("+hh:mm")
+TZ = 'dashlive/utils/timezone.py'
+
+
+class TzMatch:
+    """the match of tzinfo_re = ^(?P<delta>[+-])(?P<hour>\\d+):(?P<minute>\\d+)$ on a text `<sign><h digits>:<m digits>`"""
+
+    def __init__(self, sign):
+        self.sign = sign
+
+    def method(self, eng, name, args, kwargs, e):
+        from pyvc.models.text import SignedDigits
+        if name == 'group' and args == ['delta']:
+            return self.sign
+        if name == 'group' and args == ['hour']:
+            return SignedDigits('', z3.Int('tz_h'))
+        if name == 'group' and args == ['minute']:
+            return SignedDigits('', z3.Int('tz_m'))
+        raise Unsupported(f'match.{name}{args}')
+
+
+def tz_contract(sign):
+    k = '-' if sign == '-' else ''
+    return Contract(
+        key=f'{TZ}:FixedOffsetTimeZone.__init__', variant='west' if sign == '-' else 'east', props=['C19'],
+        env=lambda w: {'self': Obj('FixedOffsetTimeZone', {}), 'delta_str': Opaque('offset-text')},
+        requires=[('digits', 'tz_h >= 0 and tz_m >= 0')],
+        models={'self.tzinfo_re.match': lambda eng, e, a, kw: TzMatch(sign)},
+        mod_types={'self.__offset': 'td', 'self.__name': 'opaque'},
+        modifies=['self.__offset', 'self.__name'],
+        # ISO 8601 / RFC 3339: the sign applies to the whole offset, hours AND minutes
+        ensures=[('offset_is_signed_hours_and_minutes', f'td_us(self.__offset) == {k}(60 * tz_h + tz_m) * 60000000'),
+                 ('name_is_the_text', 'self.__name is delta_str')],
+        canaries=['td_us(self.__offset) == 1'],
+        witness_terms=lambda w: (lambda ev: {'tz_h': ev(z3.Int('tz_h')), 'tz_m': ev(z3.Int('tz_m'))}),
+    )
+
+
+TZ_NOMATCH = Contract(
+    key=f'{TZ}:FixedOffsetTimeZone.__init__', variant='not-an-offset', props=['C19', 'C16'],
+    env=lambda w: {'self': Obj('FixedOffsetTimeZone', {}), 'delta_str': Opaque('offset-text')},
+    models={'self.tzinfo_re.match': lambda eng, e, a, kw: None},
+    raises={'ValueError': 'True'},
+    witness_terms=lambda w: (lambda ev: {}),
+)
+TZ_CONTRACTS = [tz_contract('+'), tz_contract('-'), TZ_NOMATCH]
+
+
 GROUP = Group(
     name='dt', world=world,
     contracts=[TO_ISO_DURATION, TO_ISO_DURATION_TD, TIMECODE_TO_TIMEDELTA, TIMEDELTA_TO_TIMECODE,
-               MULTIPLY_TIMEDELTA, SCALE_TIMEDELTA],
+               MULTIPLY_TIMEDELTA, SCALE_TIMEDELTA] + TZ_CONTRACTS,
     lemmas=[Lemma('tick_roundtrip', ['C19'], lemma_tick_roundtrip),
             Lemma('tick_roundtrip_unbounded_ts', ['C19'], lemma_tick_roundtrip_canary, canary=True),
             Lemma('us_roundtrip', ['C19'], lemma_us_roundtrip),
@@ -202,6 +252,7 @@ GROUP = Group(
     ],
     bounded=[{'name': 'c19', 'props': ['C19'], 'cmd': ['/venv/bin/python', 'bounded/c19.py', '{tier}', '--repo', '{repo}']}],
     trusted=['pyvc/models/text.py: %d / %03d formatting and the digit-string operations of the trailing-zero loop'],
-    not_covered=['to_iso_datetime / from_isodatetime text round trip (regex, float(text)): bounded stand-in only',
+    not_covered=['to_iso_datetime / from_isodatetime text round trip (regex, float(text)): bounded stand-in only; of the parse side only '
+                 'the UTC offset (FixedOffsetTimeZone: the regular expression match is modelled as sign, hour digits, minute digits) is under contract',
                  'toIsoDuration on str input (float(text))', 'template filters isoDuration/isoDateTime are pass-through'],
 )
